@@ -62,6 +62,9 @@ def coq_keys(ks):
 
 
 def coq_spec(spec, fmt="gff3"):
+    # create_db: `id_spec = id_spec or <default>` -- an empty list/dict/string is replaced by the default too
+    if spec is not None and ((spec["t"] == "list" and not spec["ks"]) or (spec["t"] == "dict" and not spec["d"])):
+        spec = None
     if spec is None:
         if fmt == "gtf":
             return '(SDict [(%s, [KAttr %s]); (%s, [KAttr %s])])' % (L.s("gene"), L.s("gene_id"), L.s("transcript"),
